@@ -236,6 +236,8 @@ class Judge(object):
             return
         if not ans.startswith("ok "):
             return self.add(idx, line, "metrics", "metrics failed on a non-empty index", None, ans)
+        if ans.startswith("ok metrics-derived"):
+            return self.add(idx, line, "metrics", "the derived metrics figures disagree with the counted ones", None, ans[:300])
         m = parse_kv(ans)
         blocks = [max(1, -(-len(stems_of(x)[-1]) // 74)) for x in ref.nodes]
         exp = {"nodes": sum(blocks), "pages": sum(1 for a in ref.nodes.values() if a.page),
